@@ -1,6 +1,7 @@
 import Ebv.Lemmas.CondProg
 import Ebv.Lemmas.CondSurface
 import Ebv.Lemmas.AbsSeg
+import Ebv.Lemmas.TypingCond
 /-! # C03 — conditional blocks run exactly the branch the condition selects
 
 Model: `Ebv.Gen` + `Ebv.Model.GenCond` (comparisons, `with`/`Else`, placeholders patched by index, the
@@ -205,6 +206,76 @@ theorem before_fix_unary_32_in_64 :
       ⟨Consts.op_JSLE + Consts.op_REG, 0, 1, 1, 0⟩, ⟨Consts.op_MOV + Consts.op_LONG, 6, 0, 0, 1⟩] ∧
     classesOf pM = [] ∧ progOkC pM = true ∧ regAfter (codeOfC pM) sM 6 = 1 := by
   decide +kernel
+
+/-! ### the typing of `register ± int` and of `&` (repaired with C01; the checks had not seen it, see DESIGN §10.5)
+
+A comparison is signed as soon as one operand is.  `Sum.__init__` typed `register ± int` by the sign of the number alone:
+`self.sr2 + 1` was unsigned and `with self.sr2 + 1 < 5` an unsigned comparison.  The comparison objects of the unrepaired
+code are kept by hand. -/
+def bodyT : SStmt := .set (.reg .r 6) (.c 1)
+def cT : SCond := .cmp .lt (.bin .add (.reg .sr 2) (.c 1)) (.c 5)
+def pT : CProg := ⟨[2, 3, 6, 10], [], .ifThen cT bodyT⟩
+def sT : State := st0 [(2, 18446744073709551613), (3, 18446744073709551612), (6, 0), (10, 4096)]   -- sr2 = −3, sr3 = −4
+
+/-- the code of `with <comparison object>: self.r6 = 1` in the initial state of `pT` -/
+def codeOfCObj (co : CObj) : List Insn :=
+  match withThen co (emitS (layout pT.vars) bodyT) { code := [], owners := pT.owned, stack := 0 } with
+  | .ok (_, g) => g.code
+  | .error _ => []
+
+/-- `self.sr2 + 1 < 5` as it was built **before the fix**: the `Sum` unsigned, so the unsigned opcode pair -/
+def before_fix_cobjT : CObj := .simple .lt false (.bin .add (.reg 2 true true) (.const 1) false .sum) (.const 5)
+
+/-- **regression witness**: with sr2 = −3 the old comparison (unsigned: 2⁶⁴ − 2 < 5) skips the body although −2 < 5; the
+repaired operator protocol builds a signed comparison of a signed `Sum`, `pT` is in no class, satisfies every hypothesis
+of `C03_partial`, and the body runs -/
+theorem before_fix_sum_signed :
+    regAfter (codeOfCObj before_fix_cobjT) sT 6 = 0 ∧ truthOf pT cT sT = true ∧
+    (elabC (layout pT.vars) cT).toOption =
+      some (.simple .lt true (.bin .add (.reg 2 true true) (.const 1) true .sum) (.const 5)) ∧
+    classesOf pT = [] ∧ progOkC pT = true ∧ regAfter (codeOfC pT) sT 6 = 1 := by
+  decide +kernel
+
+/-- the merged number: `with self.r2 - 1 > 5` with r2 = 2⁶³ + 1.  The `Sum` keeps −1 and was signed (`w2 - 1`, `r2 - r3`
+are not): the signed comparison sees −2⁶³ > 5 and skips the body.  Now the text decides: unsigned, the body runs -/
+def cT2 : SCond := .cmp .gt (.bin .sub (.reg .r 2) (.c 1)) (.c 5)
+def pT2 : CProg := ⟨[2, 3, 6, 10], [], .ifThen cT2 bodyT⟩
+def sT2 : State := st0 [(2, 9223372036854775809), (6, 0), (10, 4096)]
+def before_fix_cobjT2 : CObj := .simple .gt true (.bin .add (.reg 2 true false) (.const (-1)) true .sum) (.const 5)
+
+theorem before_fix_sum_merged :
+    regAfter (codeOfCObj before_fix_cobjT2) sT2 6 = 0 ∧ truthOf pT2 cT2 sT2 = true ∧
+    (elabC (layout pT2.vars) cT2).toOption =
+      some (.simple .gt false (.bin .add (.reg 2 true false) (.const (-1)) false .sum) (.const 5)) ∧
+    classesOf pT2 = [] ∧ progOkC pT2 = true ∧ regAfter (codeOfC pT2) sT2 6 = 1 := by
+  decide +kernel
+
+/-- `&` of two signed operands: `with (self.sr2 & self.sr3) < 0` with −3 & −4 = −4.  The `AndExpression` was always
+unsigned: an unsigned `< 0` never holds.  Now it is signed iff both operands are -/
+def cT3 : SCond := .cmp .lt (.bin .and (.reg .sr 2) (.reg .sr 3)) (.c 0)
+def pT3 : CProg := ⟨[2, 3, 6, 10], [], .ifThen cT3 bodyT⟩
+def before_fix_cobjT3 : CObj :=
+  .simple .lt false (.bin .and (.reg 2 true true) (.reg 3 true true) false .and) (.const 0)
+
+theorem before_fix_and_signed :
+    regAfter (codeOfCObj before_fix_cobjT3) sT 6 = 0 ∧ truthOf pT3 cT3 sT = true ∧
+    (elabC (layout pT3.vars) cT3).toOption =
+      some (.simple .lt true (.bin .and (.reg 2 true true) (.reg 3 true true) true .and) (.const 0)) ∧
+    classesOf pT3 = [] ∧ (emitCProg pT3).toOption.isSome = true ∧ regAfter (codeOfC pT3) sT 6 = 1 := by
+  decide +kernel
+
+/-- **the comparison the generator builds is signed iff the property types one of the operands signed**
+(`SExpr.psigned`: the text decides, not the objects): for every comparison `a op b` of every program, the comparison
+object at the root (under the `~` of `==`) carries the flag `psigned a || psigned b`, unless it is a bit test
+`(x & m) != 0` (a `JSET`, which has no signed/unsigned pair); for `with expr:` the flag is `psigned expr` -/
+theorem comparison_typing_exact (p : CProg) (op : SCmp) (a b : SExpr) (co : CObj)
+    (h : elabC (layout p.vars) (.cmp op a b) = .ok co) :
+    co.rootSg = none ∨ co.rootSg = some (a.psigned (layout p.vars) || b.psigned (layout p.vars)) :=
+  elabC_cmp_sg (layout p.vars) op a b co h
+
+theorem truth_typing_exact (p : CProg) (e : SExpr) (co : CObj) (h : elabC (layout p.vars) (.truth e) = .ok co) :
+    co.rootSg = none ∨ co.rootSg = some (e.psigned (layout p.vars)) :=
+  elabC_truth_sg (layout p.vars) e co h
 
 /-- *const-left-32*: `with 5 - self.lsq > 0: self.r6 = 1` with lsq = 2³² + 1: the subtraction is done in 32 bits
 (width of the constant on the left), the body runs although 5 − lsq is negative -/
